@@ -79,22 +79,8 @@ theorem C07_bij (n : Nat) :
     exact this
 
 theorem C07_no_underflow (chk : Bool) (n r c : Nat) (hrc : r < c) (hcn : c < n)
-    (hn : n < 2147483648) : Gen.idxM chk n r c = .ok (Gen.idxN n r c) := by
-  have h1 : 2 * n < usizeMod := by unfold usizeMod; omega
-  have h2 : r ≤ 2 * n := by omega
-  have h3 : 3 ≤ 2 * n - r := by omega
-  have hA : (2 * n - r - 3) * r < 2147483648 * 2147483648 * 2 := by
-    have : 2 * n - r - 3 < 2 * 2147483648 := by omega
-    have hr : r < 2147483648 := by omega
-    calc (2 * n - r - 3) * r ≤ (2 * 2147483648) * r := Nat.mul_le_mul_right r (by omega)
-      _ < (2 * 2147483648) * 2147483648 := Nat.mul_lt_mul_of_pos_left hr (by omega)
-      _ = 2147483648 * 2147483648 * 2 := by omega
-  have h4 : (2 * n - r - 3) * r < usizeMod := by unfold usizeMod; omega
-  have h5 : (2 * n - r - 3) * r / 2 + c < usizeMod := by unfold usizeMod; omega
-  have h6 : 1 ≤ (2 * n - r - 3) * r / 2 + c := by omega
-  simp only [Gen.idxM, Gen.idxN, umul, usub, uadd, udiv, h1, h2, h3, h4, if_true,
-    bind, Except.bind]
-  simp [h5, h6, pure, Except.pure]
+    (hn : n < 2147483648) : Gen.idxM chk n r c = .ok (Gen.idxN n r c) :=
+  idxM_eq_idxN chk n r c hrc hcn hn
 
 theorem C07_debug_ok (n r c : Nat) : Gen.idxDebugOk n r c = true ↔ r < c ∧ c < n := by
   simp [Gen.idxDebugOk]
